@@ -441,11 +441,15 @@ Definition read_fun (o : op) : option (nat * (ens -> option out)) :=
   | Slice i a b c => Some (i, fun e => option_map OIds (slice_ids (nc e) a b c))
   | DumpXyz i => Some (i, fun e => Some (OXyz (dump_xyz e)))
   | DumpMol2 i => Some (i, fun e => option_map OMol2 (dump_mol2 e))
-  | ConfDumpXyz i k => Some (i, fun e => option_map (fun c => OXyz [c]) (c_get_coords k e))
-  | ConfDumpMol2 i k => Some (i, fun e => match c_get_coords k e, c_get_charges k e with
-                                          | Some c, Some q => Some (OMol2 [combine c q])
-                                          | _, _ => None
-                                          end)
+  (* conformer.dumps_xyz() / dumps_mol2(): one line per ATOM, reading coords[a] (and atomic_charges[a]); a view without
+     atoms never touches its row, so even an index out of range goes unnoticed *)
+  | ConfDumpXyz i k => Some (i, fun e => if na e =? 0 then Some (OXyz [[]])
+                                         else option_map (fun c => OXyz [c]) (c_get_coords k e))
+  | ConfDumpMol2 i k => Some (i, fun e => if na e =? 0 then Some (OMol2 [[]])
+                                          else match c_get_coords k e, c_get_charges k e with
+                                               | Some c, Some q => Some (OMol2 [combine c q])
+                                               | _, _ => None
+                                               end)
   | _ => None
   end.
 
